@@ -11,6 +11,7 @@ from liquid2.builtin import PositionalArgument
 from liquid2.exceptions import LiquidTypeError
 from liquid2.filter import sequence_arg
 from liquid2.undefined import is_undefined
+from liquid2.limits import to_str
 
 if TYPE_CHECKING:
     from liquid2 import Environment
@@ -88,7 +89,7 @@ class UniqFilter:
                     item = MISSING
                 except TypeError as err:
                     raise LiquidTypeError(
-                        f"can't read property '{key}' of {obj}",
+                        f"can't read property '{to_str(key)}' of {to_str(obj)}",
                         token=None,
                     ) from err
 
